@@ -408,6 +408,15 @@ class Path:
         elif op == "icmp":
             a, b = self.ev(i.ops[0]), self.ev(i.ops[1])
             f = fold_icmp(i.pred, a, b)
+            if f is None and i.pred in ("ne", "eq") and b[0] == "c" and b[2] == 0:
+                # (long) (x != y) != 0, as __builtin_expect and !! leave it: the truth value of a widened comparison is the comparison
+                inner = a
+                while inner[0] == "cast" and inner[1] in ("zext", "sext") and inner[2] >= 1:
+                    inner = inner[4]
+                if inner is not a and inner[0] == "icmp":
+                    NEG = {"eq": "ne", "ne": "eq", "ult": "uge", "uge": "ult", "ugt": "ule", "ule": "ugt",
+                           "slt": "sge", "sge": "slt", "sgt": "sle", "sle": "sgt"}
+                    f = inner if i.pred == "ne" else ("icmp", NEG[inner[1]], inner[2], inner[3])
             self.env[i.name] = f if f is not None else ("icmp", i.pred, a, b)
         elif op == "select":
             c, a, b = (self.ev(x) for x in i.ops)
